@@ -5,6 +5,10 @@
  *              string (nan, inf, -1, ...).  The values are offered to the real OV_ECTL_RATEMANAGE2_SET; if it refuses (rc != 0) the
  *              case answers "refused rc=.." (counted, cannot violate anything); if it ACCEPTS, the encode runs and is judged against
  *              the configured reservoir exactly like an in-range case ("any reservoir size and bias accepted by the control interface").
+ *            <idx> e2init|e2setup <rate> <ch> <nominal: -1|0> <max_kbps> <min_kbps> 0 d d <signal> <nsamples>   PLAIN set-ups without any ctl:
+ *              vorbis_encode_init(vi,ch,rate,max,nominal,min) resp. vorbis_encode_setup_managed + vorbis_encode_setup_init; limits =
+ *              the call arguments, reservoir = what OV_ECTL_RATEMANAGE2_GET reports; manager off although limits are reported =>
+ *              limit_not_installed, and the run oracle still judges the packets against the reported limits/reservoir.
  *   0 kbps = limit unused.  Set-up: vorbis_encode_setup_managed(nominal=template_kbps, no limits) picks the encoder template, then
  *   OV_ECTL_RATEMANAGE2_GET / _SET install max/min/avg, reservoir bits (= seconds * (max or, if unused, min rate); d = the
  *   default 2 s of the template rate) and bias, OV_ECTL_RATEMANAGE2_GET again (the configured values the oracle uses),
@@ -50,33 +54,61 @@ static pkt P[MAXP];
 static volatile long g_cur=-1;
 static void on_alarm(int s){ char b[64]; int n=snprintf(b,sizeof(b),"%ld TIMEOUT\n",g_cur); (void)s; fflush(stdout); if(write(1,b,n)<0){} _exit(3); }
 
-static void run_case(long idx,int req,long rate,int ch,long tmplk,long maxk,long mink,long avgk,const char *resmode,const char *biasmode,const char *dampmode,const char *sig,long nsamp){
+static void run_case(long idx,int req,int plain,long rate,int ch,long tmplk,long maxk,long mink,long avgk,const char *resmode,const char *biasmode,const char *dampmode,const char *sig,long nsamp){
   vorbis_info vi; vorbis_comment vc; vorbis_dsp_state vd; vorbis_block vb; ogg_packet op; struct ovectl_ratemanage2_arg ai;
   int ret,eos=0,n=0,i,j; long done=0,chunk=1024; long R,maxr,minr,bs[2],hs,spl; double bias;
   long ntrunc=0,npad=0,nonmono=0,hit0=0,hitfull=0,minres,maxres,nshort=0,nlong=0,limited=0; const char *viol=NULL,*notinst=NULL,*ivio=NULL; char det[400],ndet[400],idet[400]; det[0]=0; ndet[0]=0; idet[0]=0;
   codec_setup_info *ci; bitrate_manager_state *bm; private_state *ps;
   vorbis_info_init(&vi);
-  ret=vorbis_encode_setup_managed(&vi,ch,rate,-1,tmplk*1000,-1);
-  if(ret){ printf("%ld cfgerr setup_managed=%d\n",idx,ret); vorbis_info_clear(&vi); return; }
-  memset(&ai,0,sizeof(ai));
-  if(vorbis_encode_ctl(&vi,OV_ECTL_RATEMANAGE2_GET,&ai)){ printf("%ld cfgerr get\n",idx); vorbis_info_clear(&vi); return; }
-  ai.bitrate_limit_max_kbps=maxk; ai.bitrate_limit_min_kbps=mink; ai.bitrate_average_kbps=avgk;
-  if(resmode[0]=='b')ai.bitrate_limit_reservoir_bits=atol(resmode+1);            /* raw bit count (request mode) */
-  else if(strcmp(resmode,"d"))ai.bitrate_limit_reservoir_bits=(long)(atof(resmode)*1000.*(maxk>0?maxk:mink));
-  if(strcmp(biasmode,"d"))ai.bitrate_limit_reservoir_bias=strtod(biasmode,NULL);   /* strtod: also nan, inf, -inf */
-  if(strcmp(dampmode,"d"))ai.bitrate_average_damping=strtod(dampmode,NULL);
-  ret=vorbis_encode_ctl(&vi,OV_ECTL_RATEMANAGE2_SET,&ai);
-  if(ret){
-    /* e2req: the request may legitimately be refused - a refused setting cannot violate anything, it is only counted */
-    if(req)printf("%ld refused rc=%d\n",idx,ret); else printf("%ld cfgerr set=%d\n",idx,ret);
-    vorbis_info_clear(&vi); return;
+  if(plain){
+    /* PLAIN one-call set-ups, no ctl at all: vorbis_encode_init(max,nominal,min) (plain==1) or vorbis_encode_setup_managed +
+       vorbis_encode_setup_init (plain==2); nominal (tmplk field) is <= 0, i.e. left to the library.  The configured limits are
+       the call arguments; the configured reservoir is whatever OV_ECTL_RATEMANAGE2_GET reports afterwards. */
+    long amax=maxk>0?maxk*1000:-1,amin=mink>0?mink*1000:-1;
+    /* OV_ECTL_RATEMANAGE2_GET is refused once the set-up is "set in stone" (its request number has a non-zero low nibble), so it is
+       issued between setup_managed and setup_init; after the one-call vorbis_encode_init the same numbers are read from the
+       highlevel set-up the GET would copy them from (hi->bitrate_reservoir / _bias / _min / _max / managed). */
+    memset(&ai,0,sizeof(ai));
+    if(plain==1){
+      highlevel_encode_setup *hi;
+      ret=vorbis_encode_init(&vi,ch,rate,amax,tmplk,amin);
+      if(ret){ printf("%ld cfgerr plain_init=%d\n",idx,ret); return; }
+      hi=&((codec_setup_info*)vi.codec_setup)->hi;
+      ai.management_active=hi->managed; ai.bitrate_limit_min_kbps=hi->bitrate_min/1000; ai.bitrate_limit_max_kbps=hi->bitrate_max/1000;
+      ai.bitrate_limit_reservoir_bits=hi->bitrate_reservoir; ai.bitrate_limit_reservoir_bias=hi->bitrate_reservoir_bias;
+    }else{
+      ret=vorbis_encode_setup_managed(&vi,ch,rate,amax,tmplk,amin);
+      if(ret){ printf("%ld cfgerr plain_setup=%d\n",idx,ret); vorbis_info_clear(&vi); return; }
+      if(vorbis_encode_ctl(&vi,OV_ECTL_RATEMANAGE2_GET,&ai)){ printf("%ld cfgerr get\n",idx); vorbis_info_clear(&vi); return; }
+      ret=vorbis_encode_setup_init(&vi);
+      if(ret){ printf("%ld cfgerr plain_setup_init=%d\n",idx,ret); vorbis_info_clear(&vi); return; }
+    }
+    R=ai.bitrate_limit_reservoir_bits; bias=ai.bitrate_limit_reservoir_bias; maxr=maxk>0?maxk*1000:0; minr=mink>0?mink*1000:0;
+    if(!ai.management_active||ai.bitrate_limit_max_kbps!=(maxk>0?maxk:0)||ai.bitrate_limit_min_kbps!=(mink>0?mink:0)){
+      printf("%ld cfgerr plain_readback active=%d max=%ld min=%ld\n",idx,ai.management_active,ai.bitrate_limit_max_kbps,ai.bitrate_limit_min_kbps); vorbis_info_clear(&vi); return; }
+  }else{
+    ret=vorbis_encode_setup_managed(&vi,ch,rate,-1,tmplk*1000,-1);
+    if(ret){ printf("%ld cfgerr setup_managed=%d\n",idx,ret); vorbis_info_clear(&vi); return; }
+    memset(&ai,0,sizeof(ai));
+    if(vorbis_encode_ctl(&vi,OV_ECTL_RATEMANAGE2_GET,&ai)){ printf("%ld cfgerr get\n",idx); vorbis_info_clear(&vi); return; }
+    ai.bitrate_limit_max_kbps=maxk; ai.bitrate_limit_min_kbps=mink; ai.bitrate_average_kbps=avgk;
+    if(resmode[0]=='b')ai.bitrate_limit_reservoir_bits=atol(resmode+1);            /* raw bit count (request mode) */
+    else if(strcmp(resmode,"d"))ai.bitrate_limit_reservoir_bits=(long)(atof(resmode)*1000.*(maxk>0?maxk:mink));
+    if(strcmp(biasmode,"d"))ai.bitrate_limit_reservoir_bias=strtod(biasmode,NULL);   /* strtod: also nan, inf, -inf */
+    if(strcmp(dampmode,"d"))ai.bitrate_average_damping=strtod(dampmode,NULL);
+    ret=vorbis_encode_ctl(&vi,OV_ECTL_RATEMANAGE2_SET,&ai);
+    if(ret){
+      /* e2req: the request may legitimately be refused - a refused setting cannot violate anything, it is only counted */
+      if(req)printf("%ld refused rc=%d\n",idx,ret); else printf("%ld cfgerr set=%d\n",idx,ret);
+      vorbis_info_clear(&vi); return;
+    }
+    memset(&ai,0,sizeof(ai));
+    vorbis_encode_ctl(&vi,OV_ECTL_RATEMANAGE2_GET,&ai);
+    R=ai.bitrate_limit_reservoir_bits; bias=ai.bitrate_limit_reservoir_bias; maxr=ai.bitrate_limit_max_kbps*1000; minr=ai.bitrate_limit_min_kbps*1000;
+    if(!ai.management_active||maxr!=(maxk>0?maxk*1000:0)||minr!=(mink>0?mink*1000:0)){ printf("%ld cfgerr readback active=%d max=%ld min=%ld\n",idx,ai.management_active,maxr,minr); vorbis_info_clear(&vi); return; }
+    ret=vorbis_encode_setup_init(&vi);
+    if(ret){ printf("%ld cfgerr setup_init=%d\n",idx,ret); vorbis_info_clear(&vi); return; }
   }
-  memset(&ai,0,sizeof(ai));
-  vorbis_encode_ctl(&vi,OV_ECTL_RATEMANAGE2_GET,&ai);
-  R=ai.bitrate_limit_reservoir_bits; bias=ai.bitrate_limit_reservoir_bias; maxr=ai.bitrate_limit_max_kbps*1000; minr=ai.bitrate_limit_min_kbps*1000;
-  if(!ai.management_active||maxr!=(maxk>0?maxk*1000:0)||minr!=(mink>0?mink*1000:0)){ printf("%ld cfgerr readback active=%d max=%ld min=%ld\n",idx,ai.management_active,maxr,minr); vorbis_info_clear(&vi); return; }
-  ret=vorbis_encode_setup_init(&vi);
-  if(ret){ printf("%ld cfgerr setup_init=%d\n",idx,ret); vorbis_info_clear(&vi); return; }
   vorbis_comment_init(&vc);
   vorbis_analysis_init(&vd,&vi);
   vorbis_block_init(&vd,&vb);
@@ -108,6 +140,8 @@ static void run_case(long idx,int req,long rate,int ch,long tmplk,long maxk,long
           else if(!strcmp(sig,"sil"))v=0;
           else if(!strcmp(sig,"alt"))v=((t*5/rate)&1)?0.f:0.7f*noise();
           else if(!strcmp(sig,"imp"))v=(t%(rate/11+1)==(17+13*k))?0.95f:0.f;
+          else if(!strcmp(sig,"clk")){ long ph=(t+13*k)%400; v=0.05f*noise(); if(ph<6)v+=(ph&1)?-0.95f:0.95f; }      /* click train over noise: sustained short blocks */
+          else if(!strcmp(sig,"qts"))v=(t<nsamp/2)?0.01f*sinf(2*M_PI*440.0*t/rate):0.f;      /* quiet tone, then digital silence */
           else if(!strcmp(sig,"mix"))v=0.3f*sinf(2*M_PI*(300.0+170.0*k)*t/rate)+0.2f*noise()+((t%(rate/5))==700?0.8f:0.f);
           b[k][t0]=v;
         }
@@ -224,7 +258,7 @@ int main(int argc,char **argv){
     if(nf<12)continue;
     g_cur=idx;
     memset(&it,0,sizeof(it)); it.it_value.tv_sec=timeout; setitimer(ITIMER_VIRTUAL,&it,NULL);
-    run_case(idx,!strcmp(mode,"e2req"),rate,ch,tmplk,maxk,mink,avgk,resmode,biasmode,dampmode,sig,nsamp);
+    run_case(idx,!strcmp(mode,"e2req"),!strcmp(mode,"e2init")?1:(!strcmp(mode,"e2setup")?2:0),rate,ch,tmplk,maxk,mink,avgk,resmode,biasmode,dampmode,sig,nsamp);
     fflush(stdout);
     memset(&it,0,sizeof(it)); setitimer(ITIMER_VIRTUAL,&it,NULL);
   }
